@@ -76,6 +76,26 @@ Fixpoint type_tokens (t : stype) : list sexp :=
     end
   end.
 
+(** [sa_type_to_syn_type] parses the printed type with syn: a path segment that is not made of
+    identifiers (and the [<]/[>] of the generics hack) is a parse error *)
+Definition seg_ok (s : string) : bool :=
+  match seg_tokens s with
+  | [] => false
+  | l => forallb (fun t => match t with
+                           | Atom a => ident_ok a || String.eqb a "<" || String.eqb a ">"
+                           | _ => false
+                           end) l
+  end.
+Fixpoint stype_ok (t : stype) : bool :=
+  match t with
+  | TRaw p => match p with [] => false | _ => forallb seg_ok p end
+  | TConstPtr t' | TMutPtr t' => stype_ok t'
+  | TArray t' _ => stype_ok t'
+  | TFunction _ args ret =>
+    forallb (fun a => ident_ok (fst a) && stype_ok (snd a)) args &&
+    match ret with Some r => stype_ok r | None => true end
+  end.
+
 Definition vis_sexp (v : vis) : sexp := match v with Public => Atom "pub" | Private => Atom "priv" end.
 Definition attr_outer (l : list sexp) : sexp := SList (Atom "attr" :: Atom "outer" :: l).
 Definition attr_inner (l : list sexp) : sexp := SList (Atom "attr" :: Atom "inner" :: l).
@@ -141,8 +161,13 @@ Definition names_ok (f : sfunction) : bool :=
   | BAddress _ => true
   end.
 
+Definition fn_types_ok (f : sfunction) : bool :=
+  forallb (fun a => match a with SField _ t => stype_ok t | _ => true end) (sf_args f) &&
+  match sf_ret f with Some t => stype_ok t | None => true end.
+
 Definition build_function (f : sfunction) : outcome sexp :=
   if negb (names_ok f) then Panic "invalid identifier" else
+  if negb (fn_types_ok f) then Err "type does not parse" else
   Ok (fn_sexp (doc_attrs (sf_doc f)) (sf_vis f) true (sf_name f)
               (map param_sexp (sf_args f))
               (match sf_ret f with Some t => type_tokens t | None => [] end)
@@ -217,6 +242,7 @@ Definition as_ref_impls (self_name : string) (target : list sexp) (fields : list
 Definition conversions (R : registry) (fuel : nat) (name : string) (td : type_def) : outcome (list sexp) :=
   do h <- dfs_hierarchy fuel R td [];
   if negb (forallb (fun x => forallb ident_ok (fst x)) h) then Panic "invalid identifier" else
+  if negb (forallb (fun x => stype_ok (snd x)) h) then Err "type does not parse" else
   let same t := filter (fun x => stype_eqb (snd x) t) h in
   Ok (flat_map (fun x =>
                   let impls := same (snd x) in
@@ -235,6 +261,7 @@ Definition region_field (r : region) : outcome sexp :=
   | None => Err "field name not present"
   | Some n =>
     if negb (ident_ok n) then Panic "invalid identifier" else
+    if negb (stype_ok (r_type r)) then Err "type does not parse" else
     Ok (SList [Atom "field"; attrs_sexp (doc_attrs (r_doc r)); vis_sexp (r_vis r); Atom n;
                SList (Atom "ty" :: type_tokens (r_type r))])
   end.
@@ -255,6 +282,7 @@ Definition singleton_struct_impl (name : string) (v : vis) (addr : N) : sexp :=
 
 Definition vftable_accessor (vt : tvftable) : outcome sexp :=
   let ty := type_tokens (vt_type vt) in
+  if negb (stype_ok (vt_type vt)) then Err "type does not parse" else
   match vt_base_field vt with
   | Some f =>
     if negb (ident_ok f) then Panic "invalid identifier" else
@@ -312,6 +340,7 @@ Definition build_enum (p : path) (size : N) (v : vis) (ed : enum_def) : outcome 
   | None => Err "failed to get last of item path"
   | Some name =>
     if negb (ident_ok name) then Panic "invalid identifier" else
+    if negb (stype_ok (ed_type ed)) then Err "type does not parse" else
     do variants <- enum_variants (ed_fields ed) O (ed_default_index ed);
     Ok ([SList (Atom "enum" ::
                  attrs_sexp ([attr_outer [tk "repr"; paren (type_tokens (ed_type ed))]] ++
@@ -346,6 +375,7 @@ Definition build_extern_value (ev : sextern) : outcome sexp :=
   | None => Panic "received unresolved type"
   | Some t =>
     if negb (ident_ok ("get_" +++ ev_name ev)) then Panic "invalid identifier" else
+    if negb (stype_ok t) then Err "type does not parse" else
     Ok (fn_sexp [] (ev_vis ev) true ("get_" +++ ev_name ev) []
                 (tks ["&"; "'"; "static"; "mut"] ++ type_tokens t)
                 [tk "unsafe";
@@ -384,23 +414,11 @@ Definition module_file (st : sstate) (m : smodule) : outcome sexp :=
              [SList [Atom "opaque"; Str (prologue_text m)]] ++ List.concat items ++ evs ++
              [SList [Atom "opaque"; Str (epilogue_text m)]])).
 
-(** output path of a module: segments pushed onto the directory, then [set_extension("rs")],
-    which replaces whatever follows the last dot of the last segment *)
-Fixpoint strip_extension_aux (s : list ascii) (acc : list ascii) (best : option (list ascii)) : list ascii :=
-  match s with
-  | [] => match best with Some b => rev b | None => rev acc end
-  | c :: r =>
-    if Ascii.eqb c "." then
-      (* a leading dot does not start an extension *)
-      strip_extension_aux r (c :: acc) (match acc with [] => best | _ => Some acc end)
-    else strip_extension_aux r (c :: acc) best
-  end.
-Definition strip_extension (s : string) : string :=
-  string_of_list (strip_extension_aux (list_of_string s) [] None).
+(** output path of a module: the segments as directories, the last one with ".rs" appended *)
 Definition out_path (key : path) : string :=
   match path_last key with
   | None => ""
-  | Some l => concat_sep "/" (removelast key ++ [strip_extension l +++ ".rs"])
+  | Some l => concat_sep "/" (removelast key ++ [l +++ ".rs"])
   end.
 
 Definition write_all (st : sstate) : outcome (list (string * sexp)) :=
